@@ -5,6 +5,7 @@ import (
 	"context"
 	"encoding/json"
 	"fmt"
+	"os"
 	"reflect"
 	"strings"
 	"testing"
@@ -21,7 +22,11 @@ import (
 	"verifharness/rx"
 )
 
-func TestMain(m *testing.M) { hx.Main(m) }
+func TestMain(m *testing.M) {
+	// ranges of the ip matchers may be given through placeholders, which are resolved when the matcher is provisioned
+	os.Setenv("VERIF_C15_NET", "10.9.0.0/16")
+	hx.Main(m)
+}
 
 func norm(v any) any {
 	b, err := json.Marshal(v)
